@@ -104,10 +104,17 @@ opaque(RECV, "AxolotlReceivelayer.handlePreKeyWhisperMessage", event="decrypt", 
 opaque(RECV, "AxolotlReceivelayer.handleWhisperMessage", event="decrypt", raises=True)
 opaque(RECV, "AxolotlReceivelayer.handleSenderKeyMessage", event="decrypt", raises=True)
 opaque(RECV, "AxolotlReceivelayer.send_retry", event="send_retry", raises=True)
+opaque(RECV, "AxolotlReceivelayer.processPendingIncomingMessages", event="processPending", raises=True)
+event_sort("processPending", "obj")
 opaque(RECV, "AxolotlReceivelayer.reset_retries", event="reset_retries")
 opaque(BASE, "AxolotlBaseLayer.getKeysFor", event="getKeysFor", raises=True)
 extern("manager.trust_identity", event="manager.trust_identity", raises=True)
 extern("manager.registration_id", event="manager.registration_id", returns=Int)
+
+
+def dec_raised(cname):
+    """the decrypt handler that ran last raised an exception of that class"""
+    return n_events("decrypt") >= 1 and event_raised_class("decrypt", n_events("decrypt") - 1, cname)
 
 
 @contract(RECV, "AxolotlReceivelayer.handleEncMessage", max_paths=6000)
@@ -122,6 +129,52 @@ def handleEncMessage(self: Obj("AxolotlReceivelayer"), node: Obj("ProtocolTreeNo
     ensures(implies(n_events("manager.trust_identity") >= 1, truthy(event_result("getProp", 0))))
     # ... and "switched on" means the stack property, with default OFF: an application that never set it gets the refusal
     ensures(implies(n_events("getProp") >= 1, event_arg("getProp", 0, 0) == P_AUTOTRUST and event_arg("getProp", 0, 1) == False))
+    # ---- which decrypt handler runs: a pkmsg envelope -> the prekey handler, else a msg envelope -> the session handler; an skmsg
+    # envelope (group payload) is handled AFTER that, in the same call; an envelope with none of them decrypts nothing
+    ensures(implies(n_events("manager.trust_identity") == 0 and truthy(event_result("encmsg.getEnc", 0)),
+                    n_events("decrypt") >= 1 and event_callee("decrypt", 0) == "AxolotlReceivelayer.handlePreKeyWhisperMessage"))
+    ensures(implies(n_events("manager.trust_identity") == 0 and not truthy(event_result("encmsg.getEnc", 0)) and n_events("encmsg.getEnc") >= 2
+                    and truthy(event_result("encmsg.getEnc", 1)),
+                    n_events("decrypt") >= 1 and event_callee("decrypt", 0) == "AxolotlReceivelayer.handleWhisperMessage"))
+    ensures(implies(n_events("manager.trust_identity") == 0 and n_events("decrypt") >= 1 and not event_raised("decrypt", 0)
+                    and truthy(event_result("encmsg.getEnc", n_events("encmsg.getEnc") - 1))
+                    and event_callee("decrypt", 0) != "AxolotlReceivelayer.handleSenderKeyMessage",
+                    n_events("decrypt") == 2 and event_callee("decrypt", 1) == "AxolotlReceivelayer.handleSenderKeyMessage"))
+    ensures(implies(n_events("manager.trust_identity") == 0 and n_events("decrypt") >= 1, same_obj(event_arg("decrypt", 0, 0), node)))
+    ensures(implies(n_events("manager.trust_identity") == 0 and n_events("decrypt") >= 2, same_obj(event_arg("decrypt", 1, 0), node)))
+    # ---- what each outcome of the decryption leads to (the class of the exception the decrypt handler raised decides) ----------------
+    # decrypted: the retry counter of this message is reset, nothing is sent from here
+    ensures(implies(n_events("decrypt") >= 1 and not event_raised("decrypt", n_events("decrypt") - 1) and n_events("manager.trust_identity") == 0,
+                    n_events("reset_retries") == 1 and event_arg("reset_retries", 0, 0) == attr(node, "id")
+                    and n_events("toLower") == 0 and n_events("send_retry") == 0 and n_events("getKeysFor") == 0))
+    # a message the server delivered twice: acknowledged again (one receipt), not shown again, no retry, no key fetch
+    ensures(implies(dec_raised("DuplicateMessageException") and n_events("manager.trust_identity") == 0,
+                    n_events("toLower") == 1 and n_events("send_retry") == 0 and n_events("getKeysFor") == 0 and n_events("reset_retries") == 0))
+    # undecryptable (invalid message, unknown prekey id): ONE retry request for THIS message with our registration id, nothing else
+    ensures(implies((dec_raised("InvalidMessageException") or dec_raised("InvalidKeyIdException")) and n_events("manager.trust_identity") == 0,
+                    n_events("send_retry") == 1 and same_obj(event_arg("send_retry", 0, 0), node)
+                    and same_obj(event_arg("send_retry", 0, 1), field(self._manager, "registration_id"))
+                    and n_events("toLower") == 0 and n_events("getKeysFor") == 0 and n_events("reset_retries") == 0))
+    # no session with the sender: the message is parked and the SENDER's keys (the participant of a group message) are fetched, once
+    ensures(implies(dec_raised("NoSessionException") and n_events("manager.trust_identity") == 0,
+                    n_events("getKeysFor") == 1 and len(event_arg("getKeysFor", 0, 0)) == 1
+                    and event_arg("getKeysFor", 0, 0)[0] == (attr(node, "participant") if attr(node, "participant") is not None else attr(node, "from"))
+                    and n_events("toLower") == 0 and n_events("send_retry") == 0 and n_events("reset_retries") == 0))
+    # ... and when the keys have arrived (a session could be made) the parked messages of THIS conversation are processed, once;
+    # when they could not, nothing is processed (the message stays parked)
+    ensures(implies(dec_raised("NoSessionException") and n_events("manager.trust_identity") == 0,
+                    in_closure(event_arg("getKeysFor", 0, 1),
+                               lambda successJids, b: n_events("processPending") == (1 if len(successJids) > 0 else 0)
+                               and implies(len(successJids) > 0, event_arg("processPending", 0, 0) == attr(node, "from")
+                                           and event_arg("processPending", 0, 1) == attr(node, "participant")),
+                               argtypes=(ListObj("jid"), DictObjObj), stable=("attributes",))))      # (the stanza itself is not edited later)
+    # an identity that is not the pinned one: refused and ignored (nothing sent, nothing fetched, the pin untouched) unless auto-trust is on;
+    # with auto-trust the new key is pinned - the key and the name the library reported - before the message is handled again
+    ensures(implies(dec_raised("UntrustedIdentityException") and not truthy(event_result("getProp", 0)),
+                    n_events("manager.trust_identity") == 0 and n_events("toLower") == 0 and n_events("send_retry") == 0
+                    and n_events("getKeysFor") == 0 and n_events("reset_retries") == 0))
+    ensures(implies(n_events("decrypt") >= 1 and event_raised_class("decrypt", 0, "UntrustedIdentityException") and truthy(event_result("getProp", 0)),
+                    n_events("manager.trust_identity") >= 1))
     # a receipt is sent from here only for a duplicate, and then it names this message (id, to, participant)
     ensures(implies(n_events("toLower") == 1, event_arg("toLower", 0).tag == "receipt"
                     and attr(event_arg("toLower", 0), "id") == attr(node, "id") and attr(event_arg("toLower", 0), "to") == attr(node, "from")))
